@@ -146,7 +146,13 @@ func (f *Function) Eval(s *Scope, depth int) (result Object) {
 			return v
 		}
 		if vs, ok := v.(Values); ok && !skip {
-			v = vs[0]
+			// Only the primary value of an argument is used, nil if there
+			// are no values as with (values).
+			if 0 < len(vs) {
+				v = vs[0]
+			} else {
+				v = nil
+			}
 		}
 		args[i] = v
 	}
